@@ -22,6 +22,7 @@ from . import core
 from . import e1_threads as E1
 
 PROP = "C12"
+REAL_OPEN = builtins.open
 RUNS = {"quick": 2000, "thorough": 20000}
 WALL_CAP = {"quick": 300.0, "thorough": 3000.0}
 CORPUS = {"quick": (60, 30000), "thorough": (300, 100000)}
@@ -100,7 +101,7 @@ class SimFS:
         except TypeError:
             key = None
         if key is None or key not in self.files or any(ch in mode for ch in "wax+"):
-            return builtins.open(file, mode, buffering, encoding, errors, newline, closefd, opener)
+            return REAL_OPEN(file, mode, buffering, encoding, errors, newline, closefd, opener)
         self.stats["probe:sim-open-used"] = self.stats.get("probe:sim-open-used", 0) + 1
         data = self.files[key]
         if "b" in mode:
@@ -137,9 +138,9 @@ def wrong_object(kind: str, tmpdir: str) -> Any:
         return False
     if kind == "binary-file":
         p = os.path.join(tmpdir, "bin.dbml")
-        with builtins.open(p, "wb") as f:
+        with REAL_OPEN(p, "wb") as f:
             f.write(b"Table t {\n id int\n}")
-        return builtins.open(p, "rb")
+        return REAL_OPEN(p, "rb")
     if kind == "readable-object":
         class R:
             def read(self) -> str:
@@ -182,6 +183,7 @@ def gen_cell(rseed: int, tier: str) -> Dict[str, Any]:
         "eol": f.choice(["\n", "\n", "\n", "\n", "\n", "\r\n", "\r\n", "\r"]),
         "positional": g.random() < 0.25,
         "shared_handle": f.random() < 0.3,
+        "omit_defaults": g.random() < 0.5,
         "order": g.sample(ROUTES, len(ROUTES)) if g.random() < 0.7 else list(ROUTES),
         "pristine": {str(a): E1.PREP["pristine"][f"{doc}:{a}"] for a in (0, 1)},
     }
@@ -242,11 +244,15 @@ def execute_cell(cell: Dict[str, Any], tmp: str) -> Dict[str, Any]:
     saved_open = vars(pmod).get("open")
     try:
         path = os.path.join(tmp, cell["fname"])
-        with builtins.open(path, "wb") as fh:
+        with REAL_OPEN(path, "wb") as fh:
             fh.write(data)
         if not cell["real_fs"]:
             fs.register(path, data)
             pmod.open = fs.open
+            # code that reads the path in another way (io.open, Path.read_text, Path.open) meets the same simulated
+            # platform: the drawn default encoding applies whenever no encoding is given
+            io.open = fs.open
+            builtins.open = fs.open
         else:
             stats["fault:real-filesystem-run"] = 1
         kw: Dict[str, Any] = {"allow_properties": cell["ap"]}
@@ -254,7 +260,10 @@ def execute_cell(cell: Dict[str, Any], tmp: str) -> Dict[str, Any]:
         if custom:
             kw["sql_renderer"], kw["dbml_renderer"] = st["renderers"][cell["rend"]]
         pos: Tuple[Any, ...] = ()
-        if cell.get("positional"):
+        if cell.get("omit_defaults") and not custom and not cell["ap"]:
+            kw = {}      # default options are not passed at all
+            stats["fault:options-omitted"] = 1
+        elif cell.get("positional"):
             # options passed positionally, in the documented order (allow_properties, sql_renderer, dbml_renderer)
             pos = (cell["ap"],) + ((kw["sql_renderer"], kw["dbml_renderer"]) if custom else ())
             kw = {}
@@ -284,11 +293,11 @@ def execute_cell(cell: Dict[str, Any], tmp: str) -> Dict[str, Any]:
         if enc_h not in ("utf8", "utf-8-sig"):
             stats["fault:caller-codec-" + enc_h] = 1
         path_h = path + ".handle"
-        with builtins.open(path_h, "wb") as fh:
+        with REAL_OPEN(path_h, "wb") as fh:
             fh.write(data_h)
 
         def file_obj() -> Any:
-            f = builtins.open(path_h, encoding=enc_h) if cell["real_fs"] else fs.text(data_h, enc_h)
+            f = REAL_OPEN(path_h, encoding=enc_h) if cell["real_fs"] else fs.text(data_h, enc_h)
             for _ in range(npre):
                 f.readline()
             return f
@@ -422,6 +431,8 @@ def execute_cell(cell: Dict[str, Any], tmp: str) -> Dict[str, Any]:
         else:
             stats["config:fault-free"] = 1
     finally:
+        io.open = REAL_OPEN
+        builtins.open = REAL_OPEN
         if had_open:
             pmod.open = saved_open
         elif "open" in vars(pmod):
@@ -519,7 +530,7 @@ class E2Driver:
         for k, simple in (("wrong_types", []), ("bom", False), ("ap", False), ("rend", "default"),
                           ("chunk", 1 << 20), ("bufsize", 8192), ("eio_at", None), ("real_fs", False),
                           ("fname", "schema.dbml"), ("file_encoding_by_caller", "utf8"), ("default_encoding", "utf-8"),
-                          ("eol", "\n"), ("positional", False), ("shared_handle", False), ("order", list(ROUTES)),
+                          ("eol", "\n"), ("positional", False), ("shared_handle", False), ("order", list(ROUTES)), ("omit_defaults", False),
                           ("preamble", 0)):
             if cell.get(k) != simple:
                 c = dict(cell)
